@@ -76,6 +76,13 @@ def gen_cases(rng, tier, corr, stats, kshares, maxshares, kind):
         corr.one("MP %s %s %s" % (hx(st), ",".join(prog), tape_str(ws)), "MP-" + tp)
         stats["ops"]["MP-" + tp] += 1
         stats["mp_steps"][len(prog)] += 1
+    # --- masked states: mask, then 0..3 re-randomisations with per-share change flags
+    for n in avail:
+        for tp in ["zero", "ones", "alt", "rep", "pairs", "short", "sparse", "prng", "prng"] * (1 if q else 8):
+            rounds = rng.randrange(0, 4)
+            ws = tape_words(rng, tp, 5 * (n - 1) * (rounds + 1) * (2 if kind == "w32" else 1))
+            corr.one("MR %d %s %s %d %s" % (n, kind, hx(rnd_bytes(rng, 40)), rounds, tape_str(ws)), "MR-%d-%s" % (n, tp))
+            stats["ops"]["MR-%d-%s" % (n, tp)] += 1
     for n in avail:          # every first_round for every share count, straight from x1
         for k in range(13):
             corr.one("MP %s %d,p%d %s" % (hx(rnd_bytes(rng, 40)), n, k, tape_str(tape_words(rng, "prng", 8))), "MP-round")
